@@ -256,6 +256,74 @@ theorem C10_linear_solver_end_to_end (f : Option (LSqL2 𝕜 V Y)) (terms : List
 
 end EndToEnd
 
+section InitChecks
+/-! ### the class checks of every `internal_init` (tables re-read from the source by `harness/linsolve_translate.py`) -/
+
+/-- every guard and test occurring in the tables is one the model interprets: `initResult` never answers "uninterpretable" -/
+theorem C10_init_checks_interpretable : ∀ e ∈ solverTables.checks, checksInterpretable e.2 = true := by decide
+
+/-- `LinearSubproblemSolver` accepts exactly `f = None` or a `SquaredL2Loss` whose `A` is a `LinearOperator` (else `TypeError`) -/
+theorem C10_accepts_linear (F : InitFacts) :
+    initResult (checksOf solverTables "LinearSubproblemSolver") F = .ok () ↔
+      (F.fNone = true ∨ (F.isinst "admm.f" "SquaredL2Loss" = true ∧ F.isinst "admm.f.A" "LinearOperator" = true)) := by
+  cases h1 : F.fNone <;> cases h2 : F.isinst "admm.f" "SquaredL2Loss" <;> cases h3 : F.isinst "admm.f.A" "LinearOperator" <;>
+    simp [checksOf, solverTables, List.lookup, initResult, ClassCheck.fires, guardEval, errKind, h1, h2, h3]
+
+/-- `MatrixSubproblemSolver`: `f = None` or `SquaredL2Loss` with `A` a `Diagonal`/`MatrixOperator`, and every `C_i` a `Diagonal`/`MatrixOperator` -/
+theorem C10_accepts_matrix (F : InitFacts) :
+    initResult (checksOf solverTables "MatrixSubproblemSolver") F = .ok () ↔
+      ((F.fNone = true ∨ (F.isinst "admm.f" "SquaredL2Loss" = true ∧
+          (F.isinst "admm.f.A" "Diagonal" = true ∨ F.isinst "admm.f.A" "MatrixOperator" = true))) ∧
+        ∀ p ∈ F.ciInst, (p "Diagonal" = true ∨ p "MatrixOperator" = true)) := by
+  have hany : (F.ciInst.any fun p => !p "Diagonal" && !p "MatrixOperator") = false ↔
+      ∀ p ∈ F.ciInst, (p "Diagonal" = true ∨ p "MatrixOperator" = true) := by
+    simp [List.any_eq_false]
+    constructor <;> intro h p hp <;> have := h p hp <;> revert this <;> cases p "Diagonal" <;> cases p "MatrixOperator" <;> simp
+  rw [← hany]
+  cases h1 : F.fNone <;> cases h2 : F.isinst "admm.f" "SquaredL2Loss" <;> cases h3 : F.isinst "admm.f.A" "Diagonal" <;>
+    cases h4 : F.isinst "admm.f.A" "MatrixOperator" <;> cases h5 : (F.ciInst.any fun p => !p "Diagonal" && !p "MatrixOperator") <;>
+    simp [checksOf, solverTables, List.lookup, initResult, ClassCheck.fires, guardEval, errKind, h1, h2, h3, h4, h5]
+
+/-- `CircularConvolveSolver`: `f = None`, or `SquaredL2Loss` with `A` a `CircularConvolve`/`Identity` (else `TypeError`) and an
+    unweighted loss (`f.W` an `Identity`, else `ValueError`) -/
+theorem C10_accepts_circular (F : InitFacts) :
+    (initResult (checksOf solverTables "CircularConvolveSolver") F = .ok () ↔
+      (F.fNone = true ∨ (F.isinst "admm.f" "SquaredL2Loss" = true ∧
+        (F.isinst "admm.f.A" "CircularConvolve" = true ∨ F.isinst "admm.f.A" "Identity" = true) ∧ F.isinst "admm.f.W" "Identity" = true))) ∧
+    (F.fNone = false → F.isinst "admm.f" "SquaredL2Loss" = true →
+      (F.isinst "admm.f.A" "CircularConvolve" = true ∨ F.isinst "admm.f.A" "Identity" = true) → F.isinst "admm.f.W" "Identity" = false →
+      initResult (checksOf solverTables "CircularConvolveSolver") F = .error "value") := by
+  cases h1 : F.fNone <;> cases h2 : F.isinst "admm.f" "SquaredL2Loss" <;> cases h3 : F.isinst "admm.f.A" "CircularConvolve" <;>
+    cases h4 : F.isinst "admm.f.A" "Identity" <;> cases h5 : F.isinst "admm.f.W" "Identity" <;>
+    simp [checksOf, solverTables, List.lookup, initResult, ClassCheck.fires, guardEval, errKind, h1, h2, h3, h4, h5]
+
+/-- `FBlockCircularConvolveSolver`: `f` must be given (`ValueError`), a `SquaredL2Loss` with `A` a `ComposedLinearOperator` (`TypeError`),
+    unweighted (`ValueError`) -/
+theorem C10_accepts_fblock (F : InitFacts) :
+    (initResult (checksOf solverTables "FBlockCircularConvolveSolver") F = .ok () ↔
+      (F.fNone = false ∧ F.isinst "admm.f" "SquaredL2Loss" = true ∧ F.isinst "admm.f.A" "ComposedLinearOperator" = true ∧
+        F.isinst "admm.f.W" "Identity" = true)) ∧
+    (F.fNone = true → initResult (checksOf solverTables "FBlockCircularConvolveSolver") F = .error "value") := by
+  cases h1 : F.fNone <;> cases h2 : F.isinst "admm.f" "SquaredL2Loss" <;> cases h3 : F.isinst "admm.f.A" "ComposedLinearOperator" <;>
+    cases h5 : F.isinst "admm.f.W" "Identity" <;>
+    simp [checksOf, solverTables, List.lookup, initResult, ClassCheck.fires, guardEval, testEval, errKind, h1, h2, h3, h5]
+
+/-- `G0BlockCircularConvolveSolver`: `f` is `None` or a `ZeroFunctional` (`ValueError`), `g₁` a `SquaredL2Loss`, `C₁` a
+    `ComposedLinearOperator` (`TypeError`) -/
+theorem C10_accepts_g0 (F : InitFacts) :
+    initResult (checksOf solverTables "G0BlockCircularConvolveSolver") F = .ok () ↔
+      ((F.fNone = true ∨ F.isinst "admm.f" "ZeroFunctional" = true) ∧ F.isinst "admm.g_list[0]" "SquaredL2Loss" = true ∧
+        F.isinst "admm.C_list[0]" "ComposedLinearOperator" = true) := by
+  cases h1 : F.fNone <;> cases h2 : F.isinst "admm.f" "ZeroFunctional" <;> cases h3 : F.isinst "admm.g_list[0]" "SquaredL2Loss" <;>
+    cases h4 : F.isinst "admm.C_list[0]" "ComposedLinearOperator" <;>
+    simp [checksOf, solverTables, List.lookup, initResult, ClassCheck.fires, guardEval, testEval, errKind, h1, h2, h3, h4]
+
+-- non-vacuity: facts of an ADMM object with f = None and two Diagonal C_i are accepted by MatrixSubproblemSolver
+example : initResult (checksOf solverTables "MatrixSubproblemSolver")
+    { fNone := true, isinst := fun _ _ => false, ciInst := [fun c => c == "Diagonal", fun c => c == "Diagonal"] } = .ok () := by decide
+
+end InitChecks
+
 section MatrixSub
 variable {K : Type} [Field K] [HasConj K] [HasIsZero K] {m n : Nat}
 
